@@ -296,3 +296,114 @@ impl<'a> RamView<'a> {
         Some(rc_get(self.order, &b, rb_idx % slice_entries))
     }
 }
+
+/// CPU time (user + system, all threads) of this process in milliseconds
+fn process_cpu_ms() -> Option<u64> {
+    let s = std::fs::read_to_string("/proc/self/stat").ok()?;
+    // the command name (field 2) may contain spaces: fields are counted after the last ')'
+    let rest = &s[s.rfind(')')? + 2..];
+    let f: Vec<&str> = rest.split(' ').collect();
+    let ticks = f.get(11)?.parse::<u64>().ok()? + f.get(12)?.parse::<u64>().ok()?;
+    Some(ticks * 10) // USER_HZ is 100 on Linux
+}
+
+/// id of the case the main thread is running (`usize::MAX`: none), for `block_on`
+static CURRENT_CASE: std::sync::atomic::AtomicUsize = std::sync::atomic::AtomicUsize::new(usize::MAX);
+
+struct WakeFlag(std::sync::atomic::AtomicBool);
+
+impl std::task::Wake for WakeFlag {
+    fn wake(self: std::sync::Arc<Self>) {
+        self.0.store(true, std::sync::atomic::Ordering::SeqCst);
+    }
+    fn wake_by_ref(self: &std::sync::Arc<Self>) {
+        self.0.store(true, std::sync::atomic::Ordering::SeqCst);
+    }
+}
+
+/// `block_on` for futures over an ungated `SimFile`: every request completes inside the
+/// call that issues it and there is no other thread, timer or reactor, so a future that
+/// returns `Pending` without having been woken during that poll can never be woken - the
+/// task waits for something only it could release (a lock it holds itself).  That is
+/// decided here, without a clock: reported like a watchdog hang (`hang case=<id>`, exit 3).
+pub fn block_on<F: std::future::Future>(fut: F) -> F::Output {
+    use std::sync::atomic::Ordering;
+    let flag = std::sync::Arc::new(WakeFlag(std::sync::atomic::AtomicBool::new(false)));
+    let waker = std::task::Waker::from(flag.clone());
+    let mut cx = std::task::Context::from_waker(&waker);
+    let mut fut = std::pin::pin!(fut);
+    loop {
+        if let std::task::Poll::Ready(v) = fut.as_mut().poll(&mut cx) {
+            return v;
+        }
+        if !flag.0.swap(false, Ordering::SeqCst) {
+            let id = CURRENT_CASE.load(Ordering::Relaxed);
+            if id == usize::MAX {
+                panic!("block_on: the future waits for a wake-up that cannot come");
+            }
+            println!("hang case={} why=waits for a wake-up that cannot come (a lock the task holds itself)", id);
+            std::process::exit(3);
+        }
+    }
+}
+
+/// Hang detection for a harness that runs its cases on the main thread.
+///
+/// A case is a hang when it has made no progress while the process *consumed* `budget`
+/// seconds of CPU time (a loop that spins), or - a case blocked without running, which
+/// `block_on` above normally reports at once - for `30 * budget` seconds of wall-clock time.  Wall-clock time alone is not a measure of
+/// what the library did: on a loaded or freshly restored machine the same few
+/// milliseconds of work can take many seconds (DESIGN 10.21).
+pub struct Watchdog {
+    progress: std::sync::Arc<std::sync::atomic::AtomicUsize>,
+    tick: std::sync::Arc<std::sync::atomic::AtomicUsize>,
+}
+
+impl Watchdog {
+    pub fn start(budget_secs: u64) -> Self {
+        use std::sync::atomic::{AtomicUsize, Ordering};
+        let progress = std::sync::Arc::new(AtomicUsize::new(usize::MAX));
+        let tick = std::sync::Arc::new(AtomicUsize::new(0));
+        let (p, t) = (progress.clone(), tick.clone());
+        std::thread::spawn(move || {
+            let mut last = (usize::MAX, 0usize);
+            let mut since = std::time::Instant::now();
+            let mut cpu0 = process_cpu_ms();
+            loop {
+                std::thread::sleep(std::time::Duration::from_millis(200));
+                let cur = (p.load(Ordering::Relaxed), t.load(Ordering::Relaxed));
+                if cur != last {
+                    last = cur;
+                    since = std::time::Instant::now();
+                    cpu0 = process_cpu_ms();
+                    continue;
+                }
+                if cur.0 == usize::MAX {
+                    continue;
+                }
+                let wall = since.elapsed().as_secs();
+                let spun = match (cpu0, process_cpu_ms()) {
+                    (Some(a), Some(b)) => b.saturating_sub(a) >= budget_secs * 1000,
+                    // no /proc: fall back to a generous wall-clock budget
+                    _ => wall >= 6 * budget_secs,
+                };
+                if spun || wall >= 30 * budget_secs {
+                    if spun {
+                        println!("hang case={} why=spins: {} s of CPU time without finishing", cur.0, budget_secs);
+                    } else {
+                        println!("hang case={} why=neither runs nor finishes for {} s", cur.0, wall);
+                    }
+                    std::process::exit(3);
+                }
+            }
+        });
+        Watchdog { progress, tick }
+    }
+
+    /// the case with this id starts now
+    pub fn begin(&self, id: usize) {
+        CURRENT_CASE.store(id, std::sync::atomic::Ordering::Relaxed);
+        self.progress.store(id, std::sync::atomic::Ordering::Relaxed);
+        self.tick.fetch_add(1, std::sync::atomic::Ordering::Relaxed);
+    }
+}
